@@ -190,7 +190,10 @@ func (dec *Decoder) decodeInterface(tag byte, p *interface{}) {
 		return
 	case TagClass:
 		dec.ReadStruct(interfaceType)
-		dec.Decode(p)
+		if dec.enter() {
+			dec.Decode(p)
+			dec.leave()
+		}
 	case TagError:
 		var s string
 		dec.decodeString(stringType, dec.NextByte(), &s)
